@@ -100,6 +100,10 @@ pub fn file_of_spec(spec: &str) -> Vec<u8> {
         pattern(s.parse().unwrap(), l.parse().unwrap())
     } else if let Some(rest) = spec.strip_prefix('H') {
         unhex(rest)
+    } else if let Some(rest) = spec.strip_prefix('Z') {
+        // Z<len>:<byte>: a file of one repeated byte (adjacent blocks are identical)
+        let (l, b) = rest.split_once(':').expect("Z<len>:<byte>");
+        vec![b.parse::<u8>().unwrap(); l.parse().unwrap()]
     } else {
         panic!("bad file spec {spec}")
     }
@@ -138,6 +142,24 @@ pub fn raw_error(code: u16, msg: &str) -> Vec<u8> {
     let mut v = vec![0, 5, (code >> 8) as u8, code as u8];
     v.extend_from_slice(msg.as_bytes());
     v.push(0);
+    v
+}
+/// An ERROR datagram in one of the shapes peers produce: terminated text, no text at all, text without terminator,
+/// text that is not UTF-8, a long text with a two-byte character across byte 128.
+pub fn raw_error_variant(code: u16, which: u64) -> Vec<u8> {
+    let mut v = vec![0, 5, (code >> 8) as u8, code as u8];
+    match which % 6 {
+        0 => v.extend_from_slice(b"abort\0"),
+        1 => {}
+        2 => v.extend_from_slice(b"aborted by user"),
+        3 => v.extend_from_slice(b"annul\xe9\0"),
+        4 => {
+            v.extend(std::iter::repeat(b'a').take(127));
+            v.extend_from_slice("\u{e9}".as_bytes());
+            v.extend_from_slice(b"bbbbbbbbbb\0");
+        }
+        _ => v.push(0),
+    }
     v
 }
 pub fn raw_oack(opts: &[(&str, &str)]) -> Vec<u8> {
